@@ -10,7 +10,8 @@
    arithmetic.  Which unit the registry picks, and that the call sites apply
    this function, are validated by the correspondence check only. *)
 From Coq Require Import List ZArith QArith Qcanon String Bool.
-From NV Require Import Qty.Model Qty.Exec Qty.Proofs Qty.SimplProofs Qty.TableSem Qty.Good Qty.Demo.
+From NV Require Import Qty.Model Qty.Exec Qty.Proofs Qty.SimplProofs Qty.TableSem Qty.Good Qty.Demo
+                       Qty.Display Qty.DisplayProofs.
 Import ListNotations.
 Local Open Scope Qc_scope.
 
@@ -68,6 +69,19 @@ Proof.
   exact (no_simplify_id N tbl res keys near_one near cands q (vm_convert_not_simplifiable N tbl res keys a b q H)).
 Qed.
 Print Assumptions C05_respects_conversion.
+
+(* ... so the text displayed for a converted value is the same before and after
+   simplification (result display, print, string interpolation) *)
+Theorem C05_text_respects_conversion :
+  forall (T : Type) (N : numops T) tbl res keys names near_one near cands a b q s,
+    vm_convert N tbl res keys a b = Ok q ->
+    full_simplify_with_registry N tbl res keys near_one near cands q = Ok s ->
+    display_shape names s = display_shape names q.
+Proof.
+  intros T N tbl res keys names near_one near cands a b q s.
+  exact (convert_text_simplified N tbl res keys names near_one near cands a b q s).
+Qed.
+Print Assumptions C05_text_respects_conversion.
 
 (* converting a simplified result back to the unit of the unsimplified
    computation gives the unsimplified magnitude *)
